@@ -160,16 +160,48 @@ Qed.
 (* a resource whose modification time is exactly the instant the client names -- in any of the three spellings -- is
    "not modified"; one second later it is "modified" *)
 Theorem same_instant_is_not_modified yc t s :
-  ims_compare_is_strict_gt = true -> in_range t -> t <> -1 ->
+  ims_compare_is_strict_gt = true -> in_range t -> t <> -1 -> full_match s = true ->
   (exists tm, str_to_tm yc s = Some tm /\ timegm tm = t) ->
   if_modified_since yc s t = false /\ if_modified_since yc s (t + 1) = true.
 Proof.
-  intros Hg Hr Hn (tm & Hp & Ht). unfold if_modified_since, modified_since. rewrite Hg, Hp, Ht.
+  intros Hg Hr Hn Hf (tm & Hp & Ht). unfold if_modified_since, modified_since. rewrite Hg, Hp, Ht, Hf. cbn [negb]. rewrite andb_false_r.
   destruct (Z.eqb_spec t (-1)); [contradiction|]. rewrite !orb_false_r. split; [rewrite Z.gtb_ltb; apply Z.ltb_irrefl | rewrite Z.gtb_ltb; apply Z.ltb_lt; lia].
 Qed.
 
 Lemma ims_operator_as_modelled : ims_compare_is_strict_gt = true.
 Proof. reflexivity. Qed.
+
+(* bytes after the date make the value something else than an HTTP-date: the field is ignored (RFC 9110 13.1.3), whatever the date says *)
+Theorem trailing_bytes_void_the_date yc s lm : ims_requires_full_match = true -> full_match s = false -> if_modified_since yc s lm = true.
+Proof.
+  intros Hw Hf. unfold if_modified_since, modified_since. rewrite Hw, Hf. destruct (str_to_tm yc s); reflexivity.
+Qed.
+Lemma ims_whole_value_as_modelled : ims_requires_full_match = true.
+Proof. reflexivity. Qed.
+
+Lemma full_match_imf t : full_match (fmt_imf t) = true.
+Proof.
+  unfold full_match, consumed, fmt_imf. rewrite !app_length, length_fdate_imf, length_ftime. reflexivity.
+Qed.
+Lemma full_match_asctime t : full_match (fmt_asctime t) = true.
+Proof.
+  unfold full_match, consumed, fmt_asctime. rewrite !app_length, length_fdate_asc, length_ftime, length_fyear_asc. reflexivity.
+Qed.
+Lemma full_match_850 t : in_range t -> full_match (fmt_850 t) = true.
+Proof.
+  intro Hr. destruct (split_t t Hr) as (Hd & Hs & Ht). unfold full_match, consumed, fmt_850.
+  set (k := Z.to_nat ((t / 86400 + 4) mod 7)).
+  assert (Hk : (k < 7)%nat) by (unfold k; pose proof (Z.mod_pos_bound (t / 86400 + 4) 7 ltac:(lia)); lia).
+  set (rest := fdate_850 (t / 86400) ++ ftime (t mod 86400) ++ s_gmt).
+  assert (Hrl : length rest = 24%nat) by (unfold rest; rewrite !app_length, length_fdate_850, length_ftime; reflexivity).
+  assert (Hc : exists c r', rest = 44%N :: 32%N :: c :: r') by (unfold rest, fdate_850; split_lets; cbn [app]; eauto).
+  destruct Hc as (c & r' & Hc).
+  assert (Hto : to_comma (skipn 3 (nth k long_wdays [] ++ rest)) = rest /\ (6 <= length (nth k long_wdays []) <= 9)%nat).
+  { rewrite Hc. do 7 (destruct k as [|k]; [cbn; split; [reflexivity|lia]|]). lia. }
+  destruct Hto as [Hto Hwl]. rewrite Hto, app_length, Hrl.
+  destruct (Nat.eqb_spec (length (nth k long_wdays []) + 24) 29); [lia|].
+  destruct (Nat.ltb_spec 29 (length (nth k long_wdays []) + 24)); [|lia]. apply Nat.eqb_eq. lia.
+Qed.
 
 Corollary ims_independent_of_spelling t : in_range t ->
   if_modified_since 123 (fmt_imf t) t = false /\ if_modified_since 123 (fmt_asctime t) t = false /\
@@ -177,7 +209,10 @@ Corollary ims_independent_of_spelling t : in_range t ->
 Proof.
   intro Hr. assert (t <> -1) by (unfold in_range in Hr; lia).
   split; [|split; [|intro Hw]]; eapply same_instant_is_not_modified; try exact ims_operator_as_modelled; try assumption.
+  - apply full_match_imf.
   - apply imf_roundtrip; assumption.
+  - apply full_match_asctime.
   - apply asctime_roundtrip; assumption.
+  - apply full_match_850; assumption.
   - apply rfc850_roundtrip; assumption.
 Qed.
